@@ -546,7 +546,7 @@ Inductive astate :=
 | ACheck (c : call) (plan1 : list plan) (count : N)             (* schedule: in-flight scan *)
 | ASkip (c : call) (plan1 : list plan) (count : N)              (* append decided(skipped_inflight) *)
 | APlan (c : call) (plan1 : list plan) (count : N)              (* spawn_job: plan (again) *)
-| ASpawn (c : call) (plan1 plan2 : list plan) (count : N)       (* append job_spawned *)
+| ASpawn (c : call) (plan1 plan2 : list plan) (count count2 : N)   (* append job_spawned *)
 | ADecide (c : call) (plan1 : list plan) (count j : N)          (* append decided(scheduled) *)
 | ASnap (c : call) (todo : list plan) (j : N)                   (* run_spawned_job: replay *)
 | ACut (c : call) (j : N) (snap : list ev) (todo : list plan) (made : list created)   (* read half of the next cut *)
@@ -568,7 +568,7 @@ Definition decided_body (c : call) (d : N) (j : option N) (plan1 : list plan) (c
 
 (* one atomic step of one actor; response codes: schedule 0 noop 2 skipped 3 scheduled 4 completed 5 failed,
    auto 10 noop 12 completed 13 failed *)
-Definition astep (K : consts) (s : st) (a : astate) : st * astate :=
+Definition astep_gen (fx : bool) (K : consts) (s : st) (a : astate) : st * astate :=
   match a with
   | AStart c =>
     let count := nlen (msgs (log s)) in
@@ -590,12 +590,15 @@ Definition astep (K : consts) (s : st) (a : astate) : st * astate :=
     let plan2 := plan_cuts K (c_stride c) (c_maxnew c) (log s) in
     match plan2 with
     | [] => (s, ADone (enc_call_resp (if c_sched c then 0 else 10) None [] None))
-    | _ => (s, ASpawn c plan1 plan2 count)
+    | _ => (s, ASpawn c plan1 plan2 count (nlen (msgs (log s))))
     end
-  | ASpawn c plan1 plan2 count =>
+  | ASpawn c plan1 plan2 count count2 =>
     let j := fresh_job (log s) in
     let s1 := append s (BJobSpawned j plan2 (c_stride c)) in
-    if c_sched c then (s1, ADecide c plan1 count j) else (s1, ASnap c plan2 j)
+    (* fx: the decision frame, the response and the job use the plan the job was spawned with (and its message
+       count); before the fix they used the scheduler's own earlier plan *)
+    if c_sched c then (s1, ADecide c (if fx then plan2 else plan1) (if fx then count2 else count) j)
+    else (s1, ASnap c plan2 j)
   | ADecide c plan1 count j =>
     let s1 := append s (decided_body c 3 (Some j) plan1 count) in
     if c_exec c then (s1, ASnap c plan1 j) else (s1, ADone (enc_call_resp 3 (Some j) [] None))
@@ -624,19 +627,27 @@ Definition astep (K : consts) (s : st) (a : astate) : st * astate :=
   | ADone r => (s, ADone r)
   end.
 
+Definition astep := astep_gen true.
+Definition astep_unfixed := astep_gen false.
+
 Definition is_append (a : astate) : bool :=
-  match a with ASkip _ _ _ | ASpawn _ _ _ _ | ADecide _ _ _ _ | AWrite _ _ _ _ _ _ _ | AEnd _ _ _ _ _ | AMsgs _ => true | _ => false end.
+  match a with ASkip _ _ _ | ASpawn _ _ _ _ _ | ADecide _ _ _ _ | AWrite _ _ _ _ _ _ _ | AEnd _ _ _ _ _ | AMsgs _ => true | _ => false end.
 Definition is_done (a : astate) : bool := match a with ADone _ => true | _ => false end.
 
-(* read steps up to the next append (what an actor does between two parks at the seq mutex) *)
+(* where an actor thread can be preempted by the controlled scheduler: in front of the seq mutex (every append)
+   and, in a schedule call, between the in-flight scan and the spawn_job call (hook compact.sched.before_spawn) *)
+Definition is_park (a : astate) : bool :=
+  is_append a || match a with APlan c _ _ => c_sched c | _ => false end.
+
+(* steps up to the next park *)
 Fixpoint reads (K : consts) (fuel : nat) (s : st) (a : astate) : st * astate :=
   match fuel with
   | O => (s, a)
-  | S f => if is_append a || is_done a then (s, a) else let '(s', a') := astep K s a in reads K f s' a'
+  | S f => if is_park a || is_done a then (s, a) else let '(s', a') := astep K s a in reads K f s' a'
   end.
-(* one scheduling quantum: the pending append (if any), then the reads that follow it *)
+(* one scheduling quantum: the step the actor is parked in front of (if any), then everything up to its next park *)
 Definition quantum (K : consts) (s : st) (a : astate) : st * astate :=
-  if is_append a then let '(s', a') := astep K s a in reads K 8 s' a' else reads K 8 s a.
+  if is_park a then let '(s', a') := astep K s a in reads K 8 s' a' else reads K 8 s a.
 
 Fixpoint set_nth {A} (n : nat) (x : A) (l : list A) : list A :=
   match l, n with
@@ -651,6 +662,16 @@ Fixpoint run_sched (K : consts) (s : st) (actors : list astate) (schedule : list
   | i :: rest => match nth_error actors (N.to_nat i) with
                  | None => run_sched K s actors rest
                  | Some a => let '(s', a') := quantum K s a in run_sched K s' (set_nth (N.to_nat i) a' actors) rest
+                 end
+  end.
+
+(* the finest interleaving: one atomic step of the picked actor at a time, for any step function *)
+Fixpoint run_fine (step : st -> astate -> st * astate) (s : st) (actors : list astate) (schedule : list N) : st * list astate :=
+  match schedule with
+  | [] => (s, actors)
+  | i :: rest => match nth_error actors (N.to_nat i) with
+                 | None => run_fine step s actors rest
+                 | Some a => let '(s', a') := step s a in run_fine step s' (set_nth (N.to_nat i) a' actors) rest
                  end
   end.
 
